@@ -28,6 +28,8 @@ def run(ctx):
         ("fs", "RootsFs", "MethodsFs", 3 if quick else 4, 2 if quick else 3, (1000 if quick else 10000, 7)),
         ("rc", "RootsRc", "MethodsRc", 3 if quick else 4, 2 if quick else 3, (500 if quick else 5000, 6)),
         ("sock", "RootsAll", "MethodsSock", 3 if quick else 4, 3, (300 if quick else 3000, 6)),
+        ("fresh-env", "RootsMc", "MethodsFreshEnv", 5, 6 if quick else 7, (50, 7)),
+        ("fresh-mount", "RootsFsOnly", "MethodsFreshMount", 5, 6 if quick else 7, (50, 7)),
         ("all", "RootsAll", "MethodsAll", 2, 2, (2000 if quick else 30000, 9)),
     ]
     if ctx.replay_path:
